@@ -111,6 +111,7 @@ type kvOut struct {
 	Err      bool
 	Dup      bool
 	List     string
+	rawList  []string // the slice List returned (not part of the compared output)
 }
 
 func kvApply(st nodeenrollment.Storage, in kvIn) kvOut {
@@ -157,6 +158,7 @@ func kvApply(st nodeenrollment.Storage, in kvIn) kvOut {
 		if err != nil {
 			out.Err = true
 		} else {
+			out.rawList = ids // what the back end handed out: it belongs to the caller from now on
 			ids = append([]string(nil), ids...)
 			sort.Strings(ids)
 			out.List = strings.Join(ids, ",")
@@ -356,6 +358,8 @@ func propC19(r *kernel.Run) {
 		model := kvState{}
 		n := tp.Range(5, r.Deep(60, 200))
 		var hist []string
+		var heldList []string
+		heldWant := ""
 		for i := 0; i < n; i++ {
 			if tp.Draw(25) == 0 {
 				// nil and unknown message types are refused by every method
@@ -392,6 +396,18 @@ func propC19(r *kernel.Run) {
 			}
 			in := draw()
 			out := kvApply(st, in)
+			if heldList != nil {
+				// a listing obtained earlier is the caller's: later operations (other listings included) must not change it
+				cp := append([]string(nil), heldList...)
+				sort.Strings(cp)
+				if strings.Join(cp, ",") != heldWant {
+					r.Violate("map-model", "differs-from-map-model/"+backend+"/list/earlier-result-changed", "%s back end: a List result obtained earlier (%q) reads %q after a later %s", backend, truncate(heldWant, 80), truncate(strings.Join(cp, ","), 80), in.Op)
+				}
+			}
+			if in.Op == "list" && !out.Err && len(out.rawList) > 0 {
+				heldList, heldWant = out.rawList, out.List
+			}
+			out.rawList = nil
 			ok, next := kvStep(model, in, out, storeOnce)
 			r.Count("ops."+in.Op, 1)
 			if in.Cancel {
